@@ -635,7 +635,7 @@ func runC07(c *core.Ctx) {
 			})
 			c.Check(watcherOK, "R07.3", e.name+" watcher in "+name, wcall.Pos(), "watcher started under the flag and its cancel deferred",
 				"CloseModuleOnCanceledOrTimeout is not started under exactly the flag with its cancel function deferred")
-			c.Check(preOK && prePos < watcherPos, "R07.3", e.name+" pre-check in "+name, fd.Pos(), "ctx.Done() tested first: closes with the context error and returns FailIfClosed's error",
+			c.Check(preOK && (watcherPos == 0 || prePos < watcherPos), "R07.3", e.name+" pre-check in "+name, fd.Pos(), "ctx.Done() tested first: closes with the context error and returns FailIfClosed's error",
 				"no ctx.Done() pre-check (close with the context error and return) before the guest is entered")
 		})
 		if n == 0 {
